@@ -5,18 +5,25 @@ Spec: spec/RawFile.tla (choice process: format, depths, picture, comparison; TLC
 sample, file size, exit code and per-component difference counts), pure operators in RawFileOps.tla.
 Binding G: every dumped configuration is built with the real code: file_format.write -> file_format.read ->
 equality; vc2_picture_compare.compare_pictures / main on a pair of files -> exit code + parsed counts.
+Process level (spec/RawFileProc.tla): the caller's pictures are OBJECTS of several container kinds that are written
+repeatedly and looked at afterwards, and formats are used one after the other IN ONE PROCESS (every depth 1..64
+after every other, every small shape after every other); every history is run in a freshly forked process.
 Binding T: random larger formats / depths / samples / numbers are recorded (samples as base-256 digits) and
 TLC (spec/RawFileTrace.tla) evaluates equality of the arrays, the exit code rule and the counts.
 """
 import contextlib
+import copy
 import io
+import json
 import os
+import pickle
 import random
 import re
+import traceback
 import zlib
 
 from .. import common, tlc, tlaval
-from .c17 import fix_coverage, require_actions, cfg_text, dump_blocks, J, guard
+from .c17 import fix_coverage, require_actions, cfg_text, dump_blocks, J, guard, parse_vars, tlc_many
 
 COMPS = ("Y", "C1", "C2")
 SUB = {"444": 0, "422": 1, "420": 2}
@@ -197,6 +204,8 @@ def run_compare(fa, fb, use_main):
 def g_exec(case):
     """case = {stage, fmt, pic, diff, obs, salt}"""
     from vc2_conformance import file_format
+
+    mark_used()
     from vc2_conformance.dimensions_and_depths import compute_dimensions_and_depths
 
     fmt, pic_c, obs = case["fmt"], case["pic"], case["obs"]
@@ -283,6 +292,269 @@ def g_block(arg):
     return r
 
 
+# ------------------------------------------------------------------- one process, objects, histories
+_USED_LIBRARY = False  # True as soon as THIS process (or the one it was forked from) has called the code under test
+
+
+def mark_used():
+    global _USED_LIBRARY
+    _USED_LIBRARY = True
+
+
+def in_fresh_process(fn, arg):
+    """fn(arg) in a forked child of a process that has imported, but never called, the code under test: the
+    child's module-level state (caches, registries) is that of a process that starts with this history."""
+    import vc2_conformance.file_format  # noqa: F401  (import only)
+    import vc2_conformance.scripts.vc2_picture_compare  # noqa: F401
+
+    if _USED_LIBRARY:
+        raise RuntimeError("in_fresh_process called from a process that has already used the code under test")
+    r, w = os.pipe()
+    pid = os.fork()
+    if pid == 0:
+        code = 1
+        try:
+            os.close(r)
+            try:
+                out = ("ok", fn(arg))
+            except BaseException:  # noqa
+                out = ("err", traceback.format_exc())
+            with os.fdopen(w, "wb") as f:
+                pickle.dump(out, f)
+            code = 0
+        finally:
+            os._exit(code)
+    os.close(w)
+    with os.fdopen(r, "rb") as f:
+        data = f.read()
+    _, status = os.waitpid(pid, 0)
+    if status != 0 or not data:
+        raise RuntimeError("child process for %s died (status %r)" % (getattr(fn, "__name__", fn), status))
+    tag, val = pickle.loads(data)
+    if tag == "err":
+        raise RuntimeError("child process for %s failed:\n%s" % (getattr(fn, "__name__", fn), val))
+    return val
+
+
+KINDS = ("list", "npint", "npobj", "nprows")
+
+
+def container(kind, rows, depth):
+    """the caller's container for one component"""
+    import numpy as np
+
+    if kind == "list":
+        return [list(r) for r in rows]
+    if kind == "npint":
+        return np.array(rows, dtype=np.int64 if depth <= 63 else np.uint64)
+    if kind == "npobj":
+        return np.array(rows, dtype=object)
+    if kind == "nprows":
+        return [np.array(r, dtype=object) for r in rows]
+    raise RuntimeError("unknown container kind %r" % (kind,))
+
+
+def make_object(kind, ref, dims):
+    obj = {"pic_num": ref["pic_num"]}
+    for c in COMPS:
+        obj[c] = container(kind, ref[c], dims[c][2])
+    return obj
+
+
+def as_lists(x):
+    return [[int(v) for v in row] for row in x]
+
+
+def denotes(pic, refs):
+    """which of the reference values (1: as created, 2: the variant) the picture denotes; 3: neither"""
+    try:
+        got = dict((c, as_lists(pic[c])) for c in COMPS)
+    except Exception:  # noqa
+        return 3
+    for n in sorted(refs):
+        if all(got[c] == refs[n][c] for c in COMPS):
+            return n
+    return 3
+
+
+def make_variant(ref, dims, rnd):
+    """differs from ref in the top bit of one luma sample and in bit 0 of one C2 sample"""
+    out = dict((c, [list(r) for r in ref[c]]) for c in COMPS)
+    out["pic_num"] = ref["pic_num"]
+    w, h, d = dims["Y"]
+    p = rnd.randrange(w * h)
+    out["Y"][p // w][p % w] ^= 1 << (d - 1)
+    w, h, d = dims["C2"]
+    p = rnd.randrange(w * h)
+    out["C2"][p // w][p % w] ^= 1
+    return out
+
+
+def fmt_text(f):
+    return "dl=%d dc=%d %dx%d %s %s" % (f["dl"], f["dc"], f["w"], f["h"], f["sub"], "fields" if f["fields"] else "frames")
+
+
+def proc_exec(case):
+    """case = {hist: [{i: step, exp: prediction}], salt, dir}: one history of RawFileProc.tla on the real code,
+    every step compared with the prediction it carries.  Runs in a fresh process (see in_fresh_process)."""
+    from vc2_conformance import file_format
+
+    mark_used()
+    salt = case["salt"]
+    viol, dis, nlib, nw2, nr2 = [], 0, 0, 0, 0
+    used = []
+    st = None
+    where = lambda: "in one process after the %d formats [%s%s]%s" % (len(used), "... " if len(used) > 4 else "", "; ".join(fmt_text(f) for f in used[-4:]), "" if st is None else ", %s picture held as %s" % (fmt_text(st["f"]), st["k"]))
+    path = lambda s: os.path.join(case["dir"], "u%d_%s_0.raw" % (len(used), s))
+    for n, step in enumerate(case["hist"]):
+        i, exp = step["i"], step["exp"]
+        a = i["a"]
+        try:
+            if a == "new":
+                f = i["f"]
+                rnd = random.Random(salt * 31 + len(used))
+                dims = own_dims(f)
+                pn = [0, 1, 1 << 31, (1 << 32) - 1][(salt + len(used)) % 4]
+                ref1 = make_picture(dims, "rand", pn, rnd)
+                refs = {1: ref1, 2: make_variant(ref1, dims, rnd)}
+                # all formats of one history share every other video parameter (same salt)
+                st = {"f": f, "k": i["k"], "dims": dims, "refs": refs, "pn": pn, "vp": make_vp(f, salt), "vp_ref": make_vp(f, salt), "mode": make_mode(f["fields"]), "files": {}, "nw": 0}
+                st["obj"] = make_object(st["k"], refs[1], dims)
+                st["objv"] = 1
+            elif a == "vary":
+                st["obj"] = make_object(st["k"], st["refs"][2], st["dims"])
+                st["objv"] = 2
+                st["nw"] = 0
+            elif a == "done":
+                for sl in st["files"]:
+                    for fn in (path(sl), path(sl)[:-4] + ".json"):
+                        if os.path.exists(fn):
+                            os.remove(fn)
+                used.append(st["f"])
+                st = None
+            elif a == "start":
+                pass
+            elif a == "write":
+                nlib += 1
+                st["nw"] += 1
+                fn = path(i["s"])
+                keys = sorted(st["obj"].keys())
+                if (salt + n) % 2:
+                    file_format.write(st["obj"], st["vp"], st["mode"], fn)
+                else:
+                    with open(fn[:-4] + ".json", "wb") as fh:
+                        file_format.write_metadata(st["obj"], st["vp"], st["mode"], fh)
+                    with open(fn, "wb") as fh:
+                        file_format.write_picture(st["obj"], st["vp"], st["mode"], fh)
+                st["files"][i["s"]] = st["nw"]
+                nw2 += st["nw"] >= 2
+                objv = denotes(st["obj"], st["refs"])
+                if objv != exp["objv"]:
+                    viol.append(("C23|proc|write-changes-picture|%s|bps%s" % (st["k"], ">1" if max(st["f"]["dl"], st["f"]["dc"]) > 8 else "=1"), "%s: after write number %d of the caller's picture object it no longer denotes the picture it was created with (the write is not a function of its arguments' values: a second write or any later use of the object sees other samples)" % (where(), st["nw"])))
+                    st["objv"] = objv
+                args_same = sorted(st["obj"].keys()) == keys and st["obj"]["pic_num"] == st["pn"] and st["vp"] == st["vp_ref"] and type(st["vp"]) is type(st["vp_ref"]) and st["mode"] == make_mode(st["f"]["fields"])
+                if args_same != exp["args"]:
+                    viol.append(("C23|proc|write-changes-arguments", "%s: the write changed its picture number / video parameters / coding mode arguments: %r %r" % (where(), st["obj"].get("pic_num"), st["vp"])))
+                if os.path.getsize(fn) != exp["size"]:
+                    dis += 1
+            elif a == "read":
+                nlib += 1
+                fn = path(i["s"])
+                rpic, rvp, rmode = file_format.read(fn[:-4] + ".json" if (salt + n) % 3 == 0 else fn)
+                v = denotes(rpic, st["refs"])
+                nr2 += st["files"][i["s"]] >= 2
+                if v != exp["v"]:
+                    bad = [(c, y, x, st["refs"][exp["v"]][c][y][x], rpic[c][y][x]) for c in COMPS for y in range(min(len(rpic[c]), st["dims"][c][1])) for x in range(min(len(rpic[c][y]), st["dims"][c][0])) if rpic[c][y][x] != st["refs"][exp["v"]][c][y][x]][:3]
+                    viol.append(("C23|proc|roundtrip-samples|write%d|%s|prev%d" % (st["files"][i["s"]], st["k"], min(len(used), 1)), "%s: the file produced by write number %d of the object reads back differently from the picture that was written, e.g. (component, y, x, written, read) %s" % (where(), st["files"][i["s"]], bad)))
+                meta = rpic["pic_num"] == st["pn"] and rvp == st["vp_ref"] and type(rvp) is type(st["vp_ref"]) and rmode == make_mode(st["f"]["fields"])
+                if meta != exp["meta"]:
+                    viol.append(("C23|proc|roundtrip-metadata|prev%d" % min(len(used), 1), "%s: picture number / video parameters / coding mode read back differently: %r %r %r" % (where(), rpic["pic_num"], rvp, rmode)))
+            elif a == "cmp":
+                nlib += 1
+                msg, code = run_compare(path(i["s"]), path(i["t"]), (salt + n) % 4 == 0)
+                if code != exp["exit"]:
+                    viol.append(("C23|proc|compare-exit|want%d|got%s|prev%d" % (exp["exit"], code, min(len(used), 1)), "%s: files %s and %s (writes number %s and %s): exit code %s (%r), expected %d" % (where(), i["s"], i["t"], st["files"][i["s"]], st["files"][i["t"]], code, msg[:200], exp["exit"])))
+                elif code == 4 and parse_counts(msg) != exp["counts"]:
+                    viol.append(("C23|proc|compare-counts|prev%d" % min(len(used), 1), "%s: reported differing pixels %s, actually %s (%r)" % (where(), parse_counts(msg), exp["counts"], msg[:300])))
+            else:
+                raise RuntimeError("unknown step %r" % (i,))
+        except RuntimeError:
+            raise
+        except BaseException as e:  # noqa
+            if isinstance(e, KeyboardInterrupt):
+                raise
+            viol.append(("C23|proc|%s-exception|%s" % (a, common.exc_signature(e) if isinstance(e, Exception) else "SystemExit(%s)" % (e.code,)), "%s: step %r raised %r" % (where(), i, e)))
+            break
+        if viol:
+            break
+    return {"violations": viol, "disagreements": dis, "library_calls": nlib, "second_writes": nw2, "reads_of_second_writes": nr2}
+
+
+def proc_hist(block):
+    st = parse_vars(block, ["hist"])
+    return json.dumps(J(st["hist"]), sort_keys=True)
+
+
+def proc_leaf(arg):
+    """arg = (history as JSON, fresh): fresh = the history models the process from its start, so it gets a
+    freshly forked process; otherwise (process history not modelled) it runs in the long-lived pool worker"""
+    hist_json, fresh = arg
+    hist = json.loads(hist_json)
+    case = {"hist": hist, "salt": zlib.crc32(hist_json.encode()) & 0xFFFFFF, "fresh": fresh}
+    r = in_fresh_process(proc_exec, dict(case, dir=workdir())) if fresh else proc_exec(dict(case, dir=workdir()))
+    r["case"] = case
+    r["kinds"] = sorted(set(s["i"]["k"] for s in hist if s["i"]["a"] == "new"))
+    r["formats"] = [[s["i"]["f"]["dl"], s["i"]["f"]["dc"]] for s in hist if s["i"]["a"] == "new"]
+    if not r["violations"]:
+        r["case"] = None if zlib.crc32(hist_json.encode()) % 50 or len(hist) > 40 else case
+    return r
+
+
+def hist_state(block):
+    st = parse_vars(block, ["p", "n", "rank", "last", "inp"])
+    if st["p"] == 0 or J(st["inp"])["a"] == "start":
+        return None
+    return (st["p"], st["n"] * 8 + st["rank"], json.dumps({"i": J(st["inp"]), "exp": J(st["last"])}, sort_keys=True))
+
+
+def hist_processes(res):
+    """the behaviours of a dumped RawFileHist run: per pivot the chain of its steps in order"""
+    per = {}
+    n = 0
+    for t in common.pmap(hist_state, dump_blocks(res.dump_path)):
+        if t is not None:
+            per.setdefault(t[0], []).append(t[1:])
+            n += 1
+    out = []
+    for pv in sorted(per):
+        steps = sorted(per[pv])
+        if [k for k, _ in steps] != list(range(1, len(steps) + 1)):
+            raise RuntimeError("RawFileHist dump: steps of pivot %d are not a chain" % pv)
+        out.append("[" + ", ".join(sj for _, sj in steps) + "]")
+    return out, n
+
+
+def proc_leaves(res):
+    """histories of a dumped RawFileProc run that are not a proper prefix of another dumped history: replaying
+    them with every step checked covers every dumped state (each is the end of a prefix of a replayed history)."""
+    hs = common.pmap(proc_hist, dump_blocks(res.dump_path))
+    steps = []
+    for h in hs:
+        steps.append(json.loads(h))
+    keyed = [tuple(json.dumps(s, sort_keys=True) for s in h) for h in steps]
+    allh = set(keyed)
+    prefixes = set()
+    for k in allh:
+        for n in range(len(k)):
+            prefixes.add(k[:n])
+    leaves = sorted(k for k in allh if k not in prefixes)
+    covered = len(allh)
+    # every dumped history must be a prefix of (or equal to) a leaf
+    if any(k not in prefixes and k not in set(leaves) for k in allh):
+        raise RuntimeError("leaf selection lost a history")
+    return ["[" + ", ".join(k) + "]" for k in leaves], covered
+
+
 # ----------------------------------------------------------------------------------- T direction
 def rand_format(rnd):
     while True:
@@ -298,46 +570,140 @@ def rand_format(rnd):
             return fmt
 
 
-def rec_rt(arg):
+def safe_digits(v, bps):
+    try:
+        v = int(v)
+        if 0 <= v < (1 << (8 * bps)):
+            return digits(v, bps)
+    except Exception:  # noqa
+        pass
+    return [-1]
+
+
+def obj_digits(pic, dims):
+    try:
+        return dict((c, [safe_digits(v, own_bps(dims[c][2])) for row in pic[c] for v in row]) for c in COMPS)
+    except Exception:  # noqa
+        return {"Y": [[-1]], "C1": [[-1]], "C2": [[-1]]}
+
+
+def rt_event(tid, fmt, kind, nth, ref, obj, salt, base, use_write):
+    """one write of the caller's object `obj` (created from the reference value `ref`, which never goes near the
+    library) + read back, as an "rt" event: wr = the picture the caller wrote (ref), wra = what the caller's
+    object holds after the write, rd = what was read back"""
     from vc2_conformance import file_format
 
+    dims = own_dims(fmt)
+    pn = ref["pic_num"]
+    ev = {"tid": tid, "ev": "rt", "fmt": fmt, "kind": kind, "nth": nth, "wr": flat_digits(ref, dims), "wra": {"Y": [], "C1": [], "C2": []}, "argsame": False, "rd": {"Y": [], "C1": [], "C2": []}, "file": [], "pnw": str(pn), "pnr": "", "vpeq": False, "modeeq": False, "exc": "none"}
+    try:
+        vp = make_vp(fmt, salt)
+        vp_ref = make_vp(fmt, salt)
+        mode = make_mode(fmt["fields"])
+        keys = sorted(obj.keys())
+        if use_write:
+            file_format.write(obj, vp, mode, base)
+            rpic, rvp, rmode = file_format.read(base)
+        else:
+            with open(base[:-4] + ".json", "wb") as f:
+                file_format.write_metadata(obj, vp, mode, f)
+            with open(base, "wb") as f:
+                file_format.write_picture(obj, vp, mode, f)
+            with open(base[:-4] + ".json", "rb") as f:
+                rvp, rmode, rpn = file_format.read_metadata(f)
+            with open(base, "rb") as f:
+                rpic = file_format.read_picture(rvp, rmode, rpn, f)
+        ev["wra"] = obj_digits(obj, dims)
+        ev["argsame"] = bool(sorted(obj.keys()) == keys and obj["pic_num"] == pn and vp == vp_ref and type(vp) is type(vp_ref) and mode == make_mode(fmt["fields"]))
+        with open(base, "rb") as f:
+            ev["file"] = list(f.read())
+        ev["rd"] = obj_digits(rpic, dims)
+        ev["pnr"] = str(rpic["pic_num"])
+        ev["vpeq"] = bool(rvp == vp_ref and type(rvp) is type(vp_ref))
+        ev["modeeq"] = bool(rmode == make_mode(fmt["fields"]))
+    except Exception as e:  # noqa
+        ev["exc"] = common.exc_signature(e)
+    return ev
+
+
+def rec_rt(arg):
+    mark_used()
     tid, seed = arg
     rnd = random.Random(seed)
     fmt = rand_format(rnd)
     dims = own_dims(fmt)
     pn = rnd.choice([0, 1, (1 << 31) - 1, 1 << 31, (1 << 32) - 1, rnd.getrandbits(32)])
     pic = make_picture(dims, rnd.choice(["rand", "rand", "rand", "max", "alt"]), pn, rnd)
-    ev = {"tid": tid, "ev": "rt", "fmt": fmt, "wr": flat_digits(pic, dims), "rd": {"Y": [], "C1": [], "C2": []}, "file": [], "pnw": str(pn), "pnr": "", "vpeq": False, "modeeq": False, "exc": "none"}
     base = os.path.join(workdir(), "t%d_%d.raw" % (os.getpid(), rnd.randrange(10)))
-    try:
-        vp = make_vp(fmt, seed)
-        mode = make_mode(fmt["fields"])
-        if seed % 2:
-            file_format.write(pic, vp, mode, base)
-            rpic, rvp, rmode = file_format.read(base)
-        else:
-            with open(base[:-4] + ".json", "wb") as f:
-                file_format.write_metadata(pic, vp, mode, f)
-            with open(base, "wb") as f:
-                file_format.write_picture(pic, vp, mode, f)
-            with open(base[:-4] + ".json", "rb") as f:
-                rvp, rmode, rpn = file_format.read_metadata(f)
-            with open(base, "rb") as f:
-                rpic = file_format.read_picture(rvp, rmode, rpn, f)
-        with open(base, "rb") as f:
-            ev["file"] = list(f.read())
-        ev["rd"] = dict((c, [digits(v, own_bps(dims[c][2])) if isinstance(v, int) and 0 <= v < (1 << (8 * own_bps(dims[c][2]))) else [-1] for row in rpic[c] for v in row]) for c in COMPS)
-        ev["pnr"] = str(rpic["pic_num"])
-        ev["vpeq"] = bool(rvp == vp and type(rvp) is type(vp))
-        ev["modeeq"] = bool(rmode == mode)
-    except Exception as e:  # noqa
-        ev["exc"] = common.exc_signature(e)
-    return ev
+    return rt_event(tid, fmt, "list", 1, copy.deepcopy(pic), pic, seed, base, bool(seed % 2))
+
+
+SESSION_FORMATS = 10
+
+
+def session_body(arg):
+    """One PROCESS: a fixed shape and fixed other video parameters, a sequence of depths biased towards pairs
+    (d, d +- 61) and the ends of the range, pictures held in random container kinds, each object written once or
+    twice, sometimes compared with a variant.  Returns the recorded events (tids from tid0)."""
+    from vc2_conformance import file_format
+
+    mark_used()
+    tid, seed, d = arg
+    rnd = random.Random(seed)
+    while True:
+        shape = {"w": rnd.randrange(1, 7), "h": rnd.randrange(1, 7), "sub": rnd.choice(["444", "422", "420"]), "fields": rnd.random() < 0.4}
+        if valid_format(dict(shape, dl=1, dc=1)):
+            break
+    pool = [1, 2, 3, 62, 63, 64]
+    for _ in range(3):
+        x = rnd.randrange(1, 65)
+        pool += [x] + [y for y in (x - 61, x + 61) if 1 <= y <= 64]
+    events = []
+    alt = rnd.random() < 0.3
+    for j in range(SESSION_FORMATS):
+        dl = rnd.choice(pool)
+        dc = (65 - dl if alt else dl) if rnd.random() < 0.7 else rnd.choice(pool)
+        fmt = dict(shape, dl=dl, dc=dc)
+        dims = own_dims(fmt)
+        kind = rnd.choice(KINDS)
+        ref = make_picture(dims, "rand", rnd.choice([0, 1, 1 << 31, (1 << 32) - 1]), rnd)
+        obj = make_object(kind, ref, dims)
+        fa = os.path.join(d, "s%d_a_0.raw" % j)
+        for nth in (1, 2) if rnd.random() < 0.6 else (1,):
+            tid += 1
+            events.append(rt_event(tid, fmt, kind, nth, ref, obj, seed, fa, bool((seed + j + nth) % 2)))
+        if rnd.random() < 0.5:
+            var = make_variant(ref, dims, rnd)
+            same = rnd.random() < 0.3
+            other = make_object(kind, ref if same else var, dims)
+            fb = os.path.join(d, "s%d_b_0.raw" % j)
+            tid += 1
+            ev = {"tid": tid, "ev": "cmp", "fmt": fmt, "a": flat_digits(ref, dims), "b": flat_digits(ref if same else var, dims), "sameparams": True, "samemode": True, "pna": str(ref["pic_num"]), "pnb": str(ref["pic_num"]), "exit": -1, "counts": {"Y": -1, "C1": -1, "C2": -1}, "saysidentical": False, "exc": "none", "kind": "session"}
+            try:
+                file_format.write(other, make_vp(fmt, seed), make_mode(fmt["fields"]), fb)
+                msg, code = run_compare(fa, fb, (seed + j) % 3 == 0)
+                ev["exit"] = int(code)
+                got = parse_counts(msg)
+                for c in COMPS:
+                    ev["counts"][c] = got.get(c, -1)
+                ev["saysidentical"] = "Pictures are identical" in msg
+            except BaseException as e:  # noqa
+                if isinstance(e, KeyboardInterrupt):
+                    raise
+                ev["exc"] = common.exc_signature(e) if isinstance(e, Exception) else "SystemExit(%s)" % (e.code,)
+            events.append(ev)
+    return events
+
+
+def rec_session(arg):
+    tid0, seed = arg
+    return in_fresh_process(session_body, (tid0, seed, workdir()))
 
 
 def rec_cmp(arg):
     from vc2_conformance import file_format
 
+    mark_used()
     tid, seed = arg
     rnd = random.Random(seed)
     fmt = rand_format(rnd)
@@ -399,32 +765,65 @@ def rec_cmp(arg):
 
 def rec_any(job):
     kind, tid, seed = job
+    if kind == "ses":
+        return rec_session((tid, seed))
     return (rec_rt if kind == "rt" else rec_cmp)((tid, seed))
 
 
 def trace_direction(ctx):
     from .. import trace
 
-    counts = ctx.pick({"rt": 600, "cmp": 900}, {"rt": 6000, "cmp": 9000})
+    counts = ctx.pick({"rt": 600, "cmp": 900, "ses": 32}, {"rt": 6000, "cmp": 9000, "ses": 320})
+    # sessions first: each is one freshly forked process (the pool workers of this map only fork)
+    sjobs = [("ses", 1000000 + 1000 * k, ctx.seed * 1000003 + 7919 * k) for k in range(counts["ses"])]
+    records, rec_jobs = [], []
+    for job, evs in zip(sjobs, common.pmap(rec_any, sjobs, chunksize=1)):
+        records += evs
+        rec_jobs += [job] * len(evs)
+    nses = len(records)
     jobs = []
     tid = 0
     for kind in ("rt", "cmp"):
         for _ in range(counts[kind]):
             tid += 1
             jobs.append((kind, tid, ctx.seed * 1000003 + tid))
-    records = common.pmap(rec_any, jobs)
+    records += common.pmap(rec_any, jobs)
+    rec_jobs += jobs
     bad, res = trace.validate("RawFileTrace", records)
     ctx.add_tlc(res, "trace validation (RawFileTrace)")
     dis = 0
     for b in bad:
         rec = records[b["line"] - 1]
         if b["clause"] == "DriverInput":
-            raise RuntimeError("driver built an ill-formed picture: %r" % (jobs[b["line"] - 1],))
+            raise RuntimeError("driver built an ill-formed picture: %r" % (rec_jobs[b["line"] - 1],))
         if b["alarm"]:
-            what = dict((k, v) for k, v in rec.items() if k not in ("wr", "rd", "file", "a", "b"))
-            ctx.violation("C23|trace|%s|%s" % (rec["ev"], b["clause"]), "recorded %s event rejected by clause %s: %s" % (rec["ev"], b["clause"], what), {"kind": "trace", "job": list(jobs[b["line"] - 1])})
+            what = dict((k, v) for k, v in rec.items() if k not in ("wr", "wra", "rd", "file", "a", "b"))
+            sig = "C23|trace|%s|%s" % (rec["ev"], b["clause"])
+            if rec_jobs[b["line"] - 1][0] == "ses":
+                sig += "|session"
+            ctx.violation(sig, "recorded %s event rejected by clause %s: %s" % (rec["ev"], b["clause"], what), {"kind": "trace", "job": list(rec_jobs[b["line"] - 1]), "tid": rec["tid"]})
         else:
             dis += 1
+    ses = records[:nses]
+    ses_stats = {
+        "sessions": counts["ses"],
+        "events": nses,
+        "second_writes_of_one_object": sum(1 for r in ses if r["ev"] == "rt" and r["nth"] == 2),
+        "second_writes_of_numpy_object_arrays_above_8_bits": sum(1 for r in ses if r["ev"] == "rt" and r["nth"] == 2 and r["kind"] == "npobj" and max(r["fmt"]["dl"], r["fmt"]["dc"]) > 8),
+        "container_kinds": dict((k, sum(1 for r in ses if r.get("kind") == k)) for k in KINDS),
+        "depth_after_depth_minus_61_in_one_process": 0,
+    }
+    by_ses = {}
+    for r in ses:
+        by_ses.setdefault(r["tid"] // 1000, []).append(r)
+    for evs in by_ses.values():
+        seen = set()
+        for r in evs:
+            key = (r["fmt"]["dl"], r["fmt"]["dc"])
+            if key not in seen and any((g[0] - key[0]) % 61 == 0 and (g[1] - key[1]) % 61 == 0 and g != key for g in seen):
+                ses_stats["depth_after_depth_minus_61_in_one_process"] += 1
+            seen.add(key)
+    guard(ctx, ses_stats["second_writes_of_numpy_object_arrays_above_8_bits"] > 0 and ses_stats["depth_after_depth_minus_61_in_one_process"] > 0 and all(v > 0 for v in ses_stats["container_kinds"].values()), "vacuity: recorded sessions: %r" % (ses_stats,))
     exits = {}
     for r in records:
         if r["ev"] == "cmp":
@@ -446,14 +845,126 @@ def trace_direction(ctx):
         cc[k] += 1
         cm["counts"] = cc
         c0["exit"] = 4
-        pbad, _ = trace.validate("RawFileTrace", [rt, cm, c0])
+        rt2 = next(dict(r) for r in records if r["ev"] == "rt" and r["exc"] == "none" and r["wra"]["Y"] and r["wra"]["Y"][0][0] >= 0)
+        wra = dict(rt2["wra"])
+        wra["Y"] = [list(wra["Y"][0])] + wra["Y"][1:]
+        wra["Y"][0][0] ^= 1
+        rt2["wra"] = wra
+        rt3 = next(dict(r) for r in records if r["ev"] == "rt" and r["exc"] == "none")
+        rt3["argsame"] = False
+        pbad, _ = trace.validate("RawFileTrace", [rt, cm, c0, rt2, rt3])
         got = sorted((b["line"], b["clause"], b["alarm"]) for b in pbad)
-        okst = got == [(1, "RoundTripSamples", True), (2, "DifferenceCounts", True), (3, "ExitCode", True)]
+        okst = got == [(1, "RoundTripSamples", True), (2, "DifferenceCounts", True), (3, "ExitCode", True), (4, "WriteChangedPicture", True), (5, "WriteChangedArguments", True)]
     except StopIteration:
         got, okst = "no suitable recorded event", False
     guard(ctx, okst, "trace binding self-test failed: corrupted fields judged as %r" % (got,))
-    small = lambda r: dict((k, (v if k not in ("wr", "rd", "file", "a", "b") else "...")) for k, v in r.items())
-    return len(records), dis, {"exit_codes": exits, "roundtrips_above_32_bits": deep}, [small(records[0]), small(records[counts["rt"]])]
+    small = lambda r: dict((k, (v if k not in ("wr", "wra", "rd", "file", "a", "b") else "...")) for k, v in r.items())
+    return len(records), dis, {"exit_codes": exits, "roundtrips_above_32_bits": deep, "sessions_in_one_process": ses_stats}, [small(records[0]), small(records[nses]), small(records[nses + counts["rt"]])]
+
+
+def selftest_proc(arg):
+    """(in a forked child) two broken implementations installed in-process must be flagged by the process-level
+    replay: a write_picture that works in place on numpy object arrays, and dimensions memoised under hash()."""
+    from vc2_conformance import file_format
+
+    alias_cases, hist_cases, d = arg
+    orig_wp, orig_cd = file_format.write_picture, file_format.compute_dimensions_and_depths
+    import numpy as np
+
+    def aliasing_write_picture(picture, video_parameters, picture_coding_mode, file):
+        orig_wp(picture, video_parameters, picture_coding_mode, file)
+        for c in COMPS:
+            if isinstance(picture[c], np.ndarray) and picture[c].dtype == object:
+                picture[c] >>= 8
+
+    cache = {}
+
+    def hashed_dims(video_parameters, picture_coding_mode):
+        key = hash((tuple(sorted(video_parameters.items())), int(picture_coding_mode)))
+        if key not in cache:
+            cache[key] = orig_cd(video_parameters, picture_coding_mode)
+        return cache[key]
+
+    hits = {"alias": 0, "history": 0}
+    try:
+        file_format.write_picture = aliasing_write_picture
+        for c in alias_cases:
+            if any(sg.startswith("C23|proc|write-changes-picture|npobj") or sg.startswith("C23|proc|roundtrip-samples|write2|npobj") for sg, _ in proc_exec(dict(c, dir=d))["violations"]):
+                hits["alias"] += 1
+        file_format.write_picture = orig_wp
+        file_format.compute_dimensions_and_depths = hashed_dims
+        for c in hist_cases:
+            cache.clear()
+            if any(sg.startswith("C23|proc|roundtrip-samples") and sg.endswith("prev1") for sg, _ in proc_exec(dict(c, dir=d))["violations"]):
+                hits["history"] += 1
+    finally:
+        file_format.write_picture, file_format.compute_dimensions_and_depths = orig_wp, orig_cd
+    return hits
+
+
+def proc_direction(ctx, runs):
+    """runs: list of (module, name, consts, TLCResult) of RawFileProc / RawFileHist configurations.  Must be called
+    before this process uses the code under test itself (histories that model a process from its start run in
+    a freshly forked child)."""
+    stats = {"configurations": {}, "histories_replayed": 0, "processes_forked": 0, "dumped_states_covered": 0, "library_calls": 0, "second_writes": 0, "reads_of_second_writes": 0, "kinds": {}}
+    dis = 0
+    samples = []
+    alias_probe, hist_probe = [], []
+    consecutive, first_use = set(), set()
+    for module, name, consts, res in runs:
+        fix_coverage(res)
+        if module == "RawFileProc":
+            fresh = str(consts["MaxPrev"]) != "0"
+            require_actions(res, ["New", "WriteTo", "ReadFrom", "Compare"] + (["Done"] if fresh else ["Vary"]))
+            leaves, covered = proc_leaves(res)
+        else:
+            fresh = True
+            require_actions(res, ["Start", "Use"])
+            leaves, covered = hist_processes(res)
+        ctx.add_tlc(res, "%s exhaustive (%s)" % (module, name), consts)
+        out = common.pmap(proc_leaf, [(h, fresh) for h in leaves], chunksize=1 if fresh else max(1, min(64, len(leaves) // 128)))
+        stats["configurations"][name] = {"module": module, "dumped_states": covered, "histories_replayed": len(leaves), "each_in_a_fresh_process": fresh}
+        stats["histories_replayed"] += len(leaves)
+        stats["processes_forked"] += len(leaves) if fresh else 0
+        stats["dumped_states_covered"] += covered
+        for h, r in zip(leaves, out):
+            dis += r["disagreements"]
+            for k in ("library_calls", "second_writes", "reads_of_second_writes"):
+                stats[k] += r[k]
+            for k in r["kinds"]:
+                stats["kinds"][k] = stats["kinds"].get(k, 0) + 1
+            if fresh and str(consts["Shapes"]) == "ShapeF0":
+                fm = [tuple(x) for x in r["formats"]]
+                seen = []
+                for j, x in enumerate(fm):
+                    if j:
+                        consecutive.add((fm[j - 1], x))
+                    if x not in seen:
+                        first_use.update((g, x) for g in seen)
+                        seen.append(x)
+            for sig, what in r["violations"]:
+                ctx.violation(sig, what, {"kind": "proc", "case": r["case"]})
+            if r["case"] is not None and not r["violations"] and len(samples) < 3 and name not in [x[0] for x in samples]:
+                samples.append((name, r["case"]))
+            if not fresh and r["reads_of_second_writes"] and r["kinds"] == ["npobj"] and len(alias_probe) < 10:
+                f = json.loads(h)[0]["i"]["f"]
+                if max(f["dl"], f["dc"]) > 8:
+                    alias_probe.append({"hist": json.loads(h), "salt": 5})
+            if module == "RawFileHist" and r["formats"][0] in ([1, 1], [3, 3]) and str(consts["Shapes"]) == "ShapeF0":
+                hist_probe.append({"hist": json.loads(h), "salt": 6})
+    every = [(d, d) for d in range(1, 65)]
+    stats["ordered_depth_pairs_used_consecutively_in_one_process"] = sum(1 for a in every for b in every if (a, b) in consecutive)
+    stats["ordered_depth_pairs_first_use_after_the_other"] = sum(1 for a in every for b in every if (a, b) in first_use)
+    stats["pairs_d_and_d_plus_61_both_orders"] = sum(1 for d in (1, 2, 3) for a, b in [((d, d), (d + 61, d + 61)), ((d + 61, d + 61), (d, d))] if (a, b) in first_use and (a, b) in consecutive)
+    guard(
+        ctx,
+        stats["reads_of_second_writes"] > 0 and set(stats["kinds"]) == set(KINDS) and stats["pairs_d_and_d_plus_61_both_orders"] == 6 and stats["ordered_depth_pairs_used_consecutively_in_one_process"] == 64 * 64 and stats["ordered_depth_pairs_first_use_after_the_other"] == 64 * 63,
+        "vacuity: process-level replay covered %r" % (stats,),
+    )
+    hits = in_fresh_process(selftest_proc, (alias_probe, hist_probe, workdir())) if alias_probe and hist_probe else {"alias": 0, "history": 0}
+    guard(ctx, hits["alias"] > 0 and hits["history"] > 0, "process-level binding self-test failed: in-place write_picture / hash-memoised dimensions flagged on %r of %d / %d histories" % (hits, len(alias_probe), len(hist_probe)))
+    stats["binding_selftest"] = {"mutants": "write_picture that shifts numpy object arrays of the caller in place; compute_dimensions_and_depths memoised under hash() of the parameters (both installed in a forked child)", "histories_flagging_them": hits}
+    return stats, dis, [c for _, c in samples]
 
 
 def selftest_binding(cases):
@@ -480,7 +991,34 @@ def selftest_binding(cases):
 
 def run(ctx):
     consts = ctx.pick({"Sizes": "SizesSmall", "CmpDepths": "{1, 8, 10, 16, 33, 64}"}, {"Sizes": "SizesMore", "CmpDepths": "{1, 2, 7, 8, 9, 10, 12, 16, 17, 24, 31, 32, 33, 48, 63, 64}"})
-    res = tlc.run("RawFile", cfg_text("RawFile.cfg", **consts), dump=True, workers=1)
+    NEG = {"Shapes": "ShapeF0", "MaxWrites": 2, "MaxPrev": 1, "Canon": "FALSE"}
+    pconf = [
+        # objects of every container kind, written up to twice, read and compared in any order (process history not modelled)
+        ("RawFileProc", "objects: container kinds", dict(Shapes="ShapeF0", DepthPairs=ctx.pick("DepthsKinds", "DepthsKindsMore"), Kinds="AllKinds", MaxWrites=2, MaxPrev=0, Canon="FALSE")),
+        # every history of up to two earlier formats over depths that are congruent modulo 61, one fresh process each
+        ("RawFileProc", "short histories: two earlier formats", dict(Shapes="ShapeF0", DepthPairs=ctx.pick("DepthsNeg", "DepthsEdge"), Kinds="KindsList", MaxWrites=1, MaxPrev=2, Canon="TRUE")),
+        # one process per pivot depth: every depth immediately before and after the pivot, first used after it
+        ("RawFileHist", "long histories: every depth after every other", dict(Shapes="ShapeF0", DepthPairs=ctx.pick("DepthsEvery", "DepthsEveryAlt"))),
+        # the same over every small shape / subsampling / coding mode at two depth pairs
+        ("RawFileHist", "long histories: every shape after every other", dict(Shapes=ctx.pick("ShapesSmall", "ShapesMore"), DepthPairs="DepthsTwo")),
+    ]
+    negs = [
+        ("ObjectsDenoteTheirValue", dict(NEG, DepthPairs="DepthsOne", Kinds="KindsObj", MaxPrev=0, WriteImpl='"alias"')),
+        ("FileLayoutOfOwnFormat", dict(NEG, DepthPairs="DepthsNeg", Kinds="KindsList", MaxWrites=1, Canon="TRUE", CacheImpl='"hash61"')),
+    ]
+    specs = [{"module": "RawFile", "cfg": cfg_text("RawFile.cfg", **consts), "kwargs": {"dump": True, "workers": 1}}]
+    specs += [{"module": m, "cfg": cfg_text(m + ".cfg", **c), "kwargs": {"dump": True, "workers": 1}} for m, _, c in pconf]
+    specs += [{"module": "RawFileProc", "cfg": cfg_text("RawFileProc.cfg", **c), "kwargs": {"workers": 1, "allow_invariant_violation": True}} for _, c in negs]
+    R = tlc_many(specs)
+    res = R[0]
+    spec_selftest = {}
+    for (inv, c), r in zip(negs, R[1 + len(pconf) :]):
+        if r.invariant_violated != inv:
+            raise RuntimeError("spec self-test: RawFileProc with %r does not violate %s (%r)" % (c, inv, r.invariant_violated))
+        spec_selftest[inv] = "violated by the negative model %s after %d states" % (" ".join("%s=%s" % kv for kv in sorted(c.items()) if kv[0] in ("WriteImpl", "CacheImpl")), r.generated)
+    # process-level histories first: this process must not have used the code under test before they are forked
+    pstats, pdis, psamples = proc_direction(ctx, [(m, n, c, r) for (m, n, c), r in zip(pconf, R[1 : 1 + len(pconf)])])
+    pstats["negative_models"] = spec_selftest
     fix_coverage(res)
     require_actions(res, ["ChooseFormat", "ChooseDepths", "ChoosePicture", "Compare"])
     ctx.add_tlc(res, "RawFile exhaustive", dict(consts, MaxDepth=64))
@@ -507,19 +1045,20 @@ def run(ctx):
     cmps = [r for r in out if r["stage"] == "cmp"]
     ctx.coverage.update(
         {
-            "traces_validated_against_impl": len(out) + ntr,
+            "traces_validated_against_impl": len(out) + ntr + pstats["histories_replayed"],
             "replayed_configurations": {"write_read": npic, "compare": ncmp, "compare_expected_exit_codes": exits},
+            "process_level": pstats,
             "recorded_events": ntr,
             "recorded_stats": tstats,
             "trace_spec_disagreements": tdis,
-            "evaluations": len(out) + ntr,
+            "evaluations": len(out) + ntr + pstats["dumped_states_covered"],
             "distinct_nontrivial": sum(1 for r in out if r["nontrivial"]),
             "rule": "one configuration per state of the RawFile choice process at stage pic (write + read back) or cmp (pair of files compared), each built with the real code; non-trivial = a comparison, or a round trip at a depth that is not 8 or 16",
             "exhaustive": True,
             "bounds": dict(consts, MaxDepth=64, note="luma depth every value 1..64, colour-difference depth d or 65-d; all four sample classes x four picture-number classes on the 2x2 4:2:2 format, random samples elsewhere"),
-            "spec_disagreements": dis,
+            "spec_disagreements": dis + pdis,
             "binding_selftest": {"mutant": "read_picture that clears bit 63 of luma samples (in-process monkeypatch)", "configurations_flagging_it": hit, "trace": "flipping a digit of a recorded read-back sample / a recorded count / a recorded exit code is rejected by clauses RoundTripSamples / DifferenceCounts / ExitCode"},
-            "samples": [pics[len(pics) // 2]["sample"], cmps[len(cmps) // 3]["sample"], cmps[-1]["sample"]] + tsamples,
+            "samples": [pics[len(pics) // 2]["sample"], cmps[len(cmps) // 3]["sample"], cmps[-1]["sample"]] + tsamples + psamples[:2],
         }
     )
     ctx.assumptions += [
@@ -532,8 +1071,11 @@ def run(ctx):
 def replay(case):
     if case["kind"] == "g":
         return g_exec(case["case"])
+    if case["kind"] == "proc":
+        return in_fresh_process(proc_exec, dict(case["case"], dir=workdir()))
     from .. import trace
 
     rec = rec_any(tuple(case["job"]))
-    bad, _ = trace.validate("RawFileTrace", [rec])
-    return {"violations": [b for b in bad if b["alarm"]], "event": dict((k, v) for k, v in rec.items() if k not in ("wr", "rd", "file", "a", "b"))}
+    recs = rec if isinstance(rec, list) else [rec]
+    bad, _ = trace.validate("RawFileTrace", recs)
+    return {"violations": [dict(b, tid=recs[b["line"] - 1]["tid"]) for b in bad if b["alarm"]], "events": [dict((k, v) for k, v in r.items() if k not in ("wr", "wra", "rd", "file", "a", "b")) for r in recs if not isinstance(rec, list) or r["tid"] == case.get("tid")]}
